@@ -370,8 +370,6 @@ def spec_check(ck, case, o):
                     got = float(gv[r][e])
                     if case["dtype"] == "float32":
                         tol += 1e-6 * abs(want)
-                    if case["dtype"] == "uint8":
-                        continue            # the difference clause already reports unsigned wraparound
                     if bad is None and not (np.isfinite(got) and abs(got - want) <= tol):
                         bad = (r, e, got, want)
                 truth_rows.append(trow)
@@ -388,14 +386,14 @@ def spec_check(ck, case, o):
                 rep(ck, case, "gradient", dict(base, quantity="gradient", dtype=case["dtype"], efd_supplied=bool(case["sup_efd"]),
                                                signature=sig),
                     {"row": bad[0], "edge": bad[1], "impl": bad[2], "truth": bad[3]})
-            if case["style"] == "const" and case["dtype"] != "uint8" and np.any(gv != 0):
+            if case["style"] == "const" and np.any(gv != 0):
                 rep(ck, case, "constant_field_gradient", dict(base, quantity="gradient", efd_supplied=bool(case["sup_efd"]),
                                                               signature=follows_sig if np.any(np.isnan(gv)) else "other"))
             for idx, _, sg in o.get("slices", []):
                 if not np.array_equal(np.asarray(grad.values)[idx], sg, equal_nan=True):
                     rep(ck, case, "leading_dims_independent", dict(base, quantity="gradient", signature="other"))
                     break
-        if meta(gradn, "gradient_normalized") and truth_rows is not None and case["dtype"] != "uint8":
+        if meta(gradn, "gradient_normalized") and truth_rows is not None:
             gn = np.asarray(gradn.values, dtype=float).reshape(-1)
             gt = np.asarray(np.asarray(grad.values), dtype=float).reshape(-1)
             if np.all(np.isfinite(gt)) and np.linalg.norm(gt) > 0:
@@ -464,9 +462,6 @@ def compare_model(ck, case, o, mplans, mdata, stats):
                 if not (np.isfinite(v) and abs(mp.mpf(v) - t) <= dist_tol(t)):
                     return {"why": "geodesic entry", "table": which, "edge": e, "plan": [tag, i, j], "impl": v,
                             "model": float(t)}
-    if case["dtype"] == "uint8":
-        stats["data_compare_skipped_unsigned"] = stats.get("data_compare_skipped_unsigned", 0) + 1
-        return None
     mdiff, mgrad = mdata
     dv = np.asarray(o["diff"].values, dtype=float).reshape((-1, n_edge))
     rtol = Fraction(1, 10 ** 6) if case["dtype"] == "float32" else Fraction(1, 10 ** 12)
